@@ -108,7 +108,13 @@ Fixpoint iter_aux (left : N) (bs cs : list N) : list (N * N * N) :=
   | [], x :: _ => [(left, CHAR_MAX, x)]
   | _, [] => []
   end.
-Definition iter (cc : charcat) : list (N * N * N) := iter_aux 0 (boundaries cc) (categories cc).
+(* on the default table (no boundaries) CharCategoryIter::next takes `boundaries.last().unwrap()` of an empty vector:
+   None models that panic *)
+Definition iter (cc : charcat) : option (list (N * N * N)) :=
+  match boundaries cc with
+  | [] => None
+  | _ => Some (iter_aux 0 (boundaries cc) (categories cc))
+  end.
 
 (* ---- correspondence-check entry: one case = definition ranges + (code point, implementation answer) list ---- *)
 Definition well_formed (rs : list crange) : bool := forallb (fun r => rb r <? re r) rs.
@@ -117,4 +123,24 @@ Definition check_case (rs : list crange) (qs : list (N * N)) : bool :=
   match compile rs with
   | None => false
   | Some cc => forallb (fun q => (lookup cc (fst q) =? snd q) && (snd q =? spec rs (fst q))) qs
+  end.
+
+(* the same plus what CharacterCategory::iter() yielded: None = it panicked *)
+Definition triple_eqb (a b : N * N * N) : bool :=
+  (fst (fst a) =? fst (fst b)) && (snd (fst a) =? snd (fst b)) && (snd a =? snd b).
+Fixpoint triples_eqb (a b : list (N * N * N)) : bool :=
+  match a, b with
+  | [], [] => true
+  | x :: a', y :: b' => triple_eqb x y && triples_eqb a' b'
+  | _, _ => false
+  end.
+Definition check_case_iter (rs : list crange) (qs : list (N * N)) (it : option (list (N * N * N))) : bool :=
+  check_case rs qs &&
+  match compile rs with
+  | None => false
+  | Some cc => match iter cc, it with
+               | None, None => true
+               | Some a, Some b => triples_eqb a b
+               | _, _ => false
+               end
   end.
